@@ -331,3 +331,34 @@ def c_pbm_io(ctx, it, cfg):
         elif ok:
             ctx.prove('%s/same-values' % name, implies(j < cols, eq(got.get(i, j), src.get(i, j))), inst=[i, j])
     ctx.prove('canary/boundaries-hold-the-distribution', eq(b.fields['_recordedBins'].get(0, 0), rp.get(0, 0)), expect='refuted')
+
+
+@REG.contract('GenericModel.save-load/file-names', ['kawin.GenericModel:GenericModel.save', 'kawin.GenericModel:GenericModel.load'],
+              configs=[dict(name=a + '|' + b, names=(a, b)) for a, b in (('run_t0.25h', 'run_t0.50h'), ('run', 'run.v2'), ('a.npz', 'b.npz'), ('run_t0.25h.npz', 'run_t0.25h'))])
+def c_file_names(ctx, it, cfg):
+    """two snapshots saved under two different names are two files: loading a name gives back what was saved under THAT name ('.npz' appended when missing,
+    nothing else done to the name -- a dot inside the name is part of the name)"""
+    GMm = 'kawin.GenericModel'
+    a, b = cfg['names']
+    full = lambda nm: nm if nm.endswith('.npz') else nm + '.npz'
+    m1 = new_obj(it, GMm, 'GenericModel', couplingModels=[])
+    m2 = new_obj(it, GMm, 'GenericModel', couplingModels=[])
+    n1, n2 = integer(ctx, 'n1', lambda v: v >= 1), integer(ctx, 'n2', lambda v: v >= 1)
+    d1 = {'time': array(ctx, 'time_first', (n1,))}
+    d2 = {'time': array(ctx, 'time_second', (n2,))}
+    m1.fields['toDict'] = lambda: d1
+    m2.fields['toDict'] = lambda: d2
+    got = {}
+    r1 = new_obj(it, GMm, 'GenericModel', couplingModels=[])
+    r1.fields['fromDict'] = lambda data: got.update(first=data)
+    r2 = new_obj(it, GMm, 'GenericModel', couplingModels=[])
+    r2.fields['fromDict'] = lambda data: got.update(second=data)
+    m1.save(a)
+    m2.save(b)
+    r1.load(a)
+    r2.load(b)
+    same_file = full(a) == full(b)
+    for key, src, n_ in (('second', d2, n2),) + ((('first', d1, n1),) if not same_file else (('first', d2, n2),)):
+        t = got[key]['time']
+        ctx.prove('%s-snapshot-comes-back-under-its-own-name/length' % key, eq(t.shape[0], n_))
+        forall(ctx, '%s-snapshot-comes-back-under-its-own-name/values' % key, 0, n_, lambda i: eq(t.get(i), src['time'].get(i)))
